@@ -129,7 +129,8 @@ fn decode_c05(r: &mut Rd) -> props::c05::SupCase {
             _ => Stim::Uio(k / 6 % 3, k & 0x80 != 0),
         });
     }
-    props::c05::SupCase { stack, limit: Some(limit), via_text: false, prog: raw_prog(&image), patches: vec![], fill, inp: [2, 2, 1, 0], max_instr: 300, stims }
+    let never_sized = limit == 0xA5;
+    props::c05::SupCase { stack, limit: Some(limit), via_text: false, never_sized, prog: raw_prog(&image), patches: vec![], fill, inp: [2, 2, 1, 0], max_instr: 300, stims }
 }
 
 fn decode_c11(r: &mut Rd) -> props::c11::StepCase {
